@@ -3,6 +3,7 @@ import ThruVerif.Gen.Geometry
 import ThruVerif.Driver.CodecCmd
 import ThruVerif.Driver.SendFileCmd
 import ThruVerif.Driver.AdmissionCmd
+import ThruVerif.Driver.PathCmd
 /-!
 `tvdriver`: one case per input line, one result per output line. The same lines are given to the Go
 harness, which runs the real code; the orchestrator diffs the two outputs.
@@ -27,6 +28,13 @@ def handle (line : String) : String :=
   | "sf" :: ws => handleSf ws
   | "sched" :: ws => handleSched ws
   | "adm" :: ws => handleAdm ws
+  | "recvfx" :: ws => handleRecvFx ws
+  | "clean" :: ws => handlePath "clean" ws
+  | "join" :: ws => handlePath "join" ws
+  | "isabs" :: ws => handlePath "isabs" ws
+  | "vrel" :: ws => handlePath "vrel" ws
+  | "vname" :: ws => handlePath "vname" ws
+  | "dir" :: ws => handlePath "dir" ws
   | _ => "bad-op"
 
 partial def loop (h : IO.FS.Stream) (out : IO.FS.Stream) : IO Unit := do
